@@ -313,14 +313,16 @@ func c02Oracle(in c02In) probe.Outcome {
 		return fail(err)
 	}
 	labels := append(suiteLabels(in.protIn), "producer:"+in.Producer)
+	counts := map[string]int{}
 	for k, v := range cx.classes {
-		_ = v
 		labels = append(labels, "class:"+k)
+		counts["altered-inputs:"+k] = v
+		counts["altered-inputs:total"] += v
 	}
 	if in.AllFlips {
 		labels = append(labels, "all-bit-flips")
 	}
-	return probe.Outcome{NonTrivial: true, Labels: labels}
+	return probe.Outcome{NonTrivial: true, Labels: labels, Counts: counts}
 }
 
 var c02Tamper = probe.Define("C02", "tamper", func(t *rapid.T) c02In {
